@@ -43,7 +43,8 @@ theorem covers_update {st st' : SM.St} (hi : Inv st) (hi' : Inv st') (ds : List 
     (hsub : ∀ k ∈ updateClears t st st' ds, k ∈ cl)
     (hF : ∀ q, q ∈ st.ids → q ∉ ds → ∀ a n, st'.mem a q n = st.mem a q n)
     (hD : ∀ a q n, q ∈ ds → st'.defd a q n = st.defd a q n)
-    (hC : ∀ q, st'.childNames q ≠ st.childNames q → Clear.ns (cellsOf t st q) ∈ cl) :
+    (hC : ∀ q, st'.childNames q ≠ st.childNames q → Clear.ns (cellsOf t st q) ∈ cl)
+    (hG : st'.globals = st.globals) :
     Covers t st st' cl := by
   have walked : ∀ a q n, q ∈ st.ids → st'.mem a q n ≠ st.mem a q n → q ∈ ds := by
     intro a q n hq hne
@@ -59,7 +60,7 @@ theorem covers_update {st st' : SM.St} (hi : Inv st) (hi' : Inv st') (ds : List 
   · intro q x hm hne
     have hq : q ∈ st.ids := mem_ids_of_isSome st .cells q x hm
     by_cases hch : st'.childNames q = st.childNames q
-    · obtain ⟨a', y, hdiff⟩ := nsAt_changed t q hch hne
+    · obtain ⟨a', y, hdiff⟩ := nsAt_changed t q hch hG hne
       have hqd : q ∈ ds := walked a' q y hq (fun h => hdiff (by rw [h]))
       refine touchedBy_of_ns (L := cellsOf t st q) (hsub _ ?_) (mem_cellsOf t st q x hm)
       cases a' with
@@ -112,7 +113,7 @@ theorem covers_removeBases {st st' : SM.St} (hi : Inv st) (hi' : Inv st') (p : P
     Covers t st st' (clearing kw t st st' (.removeBases p bs)) := by
   have R := removeBases_spec st st' (keysOK_of_inv hi) p bs hop
   refine covers_update t hi hi' (p :: st.subs p) _ (fun k hk => hk) ?_ (fun a q n _ => R.defs a q n)
-    (fun q hch => absurd (childNames_of_ids_eq R.ids q) hch)
+    (fun q hch => absurd (childNames_of_ids_eq R.ids q) hch) R.globals
   intro q hq hqd a n
   refine mem_eq_of_tail hi hi' q ?_ (fun a b n _ => R.defs a b n) a n
   refine tail_eq_of_mro_transfer st st' q (hi.wf.mro_all q) ?_ (Nat.le_of_eq (length_of_ids_eq R.ids))
@@ -130,7 +131,7 @@ theorem covers_addBases {st st' : SM.St} (hi : Inv st) (hi' : Inv st') (p : Path
     Covers t st st' (clearing kw t st st' (.addBases p bs)) := by
   have R := addBases_spec st st' (keysOK_of_inv hi) p bs hop
   refine covers_update t hi hi' (p :: st'.subs p) _ (fun k hk => hk) ?_ (fun a q n _ => R.defs a q n)
-    (fun q hch => absurd (childNames_of_ids_eq R.ids q) hch)
+    (fun q hch => absurd (childNames_of_ids_eq R.ids q) hch) R.globals
   intro q hq hqd a n
   have htail : st.tail q = st'.tail q := by
     refine tail_eq_of_mro_transfer st' st q (hi'.wf.mro_all q) ?_ (Nat.le_of_eq (length_of_ids_eq R.ids).symm)
@@ -149,11 +150,11 @@ theorem covers_newSpace {st st' : SM.St} (hi : Inv st) (hi' : Inv st') (parent :
     (bases : List Path) (refs : List (String × Nat))
     (hop : st.newSpaceRefs kw parent name bases refs = some st') :
     Covers t st st' (clearing kw t st st' (.newSpace parent name bases refs)) := by
-  obtain ⟨hfresh, hids, _, hbases, hdefs⟩ :=
+  obtain ⟨hfresh, hids, hglob, hbases, hdefs⟩ :=
     newSpaceRefs_spec kw st st' (keysOK_of_inv hi) parent name bases refs hop
   have hold : ∀ x, x ∈ st.ids → x ≠ parent ++ [name] := fun x hx e => hfresh (e ▸ hx)
   refine covers_update t hi hi' [] _ (fun k hk => by simp [updateClears] at hk) ?_
-    (fun a q n hq => nomatch hq) ?_
+    (fun a q n hq => nomatch hq) ?_ hglob
   · intro q hq _ a n
     have hlen : st.spaces.length ≤ st'.spaces.length := by
       have := congrArg List.length hids
